@@ -8,12 +8,14 @@ CONSTANTS
   PlusOne = TRUE
   UnsatGe = TRUE
   ImsLe = TRUE
+  ImsLocalTime = FALSE
   Tokens <- TravTokens
   MaxTokens = 5
   StartPaths <- EmptyOnly
   Fbs <- AllFbs
   Ranges <- NoRangeOnly
-  Imss <- NoImsOnly
+  Zones <- UtcOnly
+  ImsFor <- NoImsOnly
 INVARIANT Containment
 INVARIANT ServedIsInside
 INVARIANT NothingElseIs404
@@ -25,3 +27,4 @@ INVARIANT ContentRangeConsistent
 INVARIANT ZeroSizeIgnoresRange
 INVARIANT UnsatCarriesSize
 INVARIANT NotModifiedNoBody
+INVARIANT DecisionIndependentOfZone
